@@ -397,6 +397,13 @@ theorem fast_eq_reflective (c : Int) (s : Bytes) :
       respondFrom o0 ph req app (viaTeapot c s) = respondFrom o0 ph req app (viaReflect c s) :=
   ⟨rfl, fun _ _ _ _ => rfl⟩
 
+/-- the response to a `func() (int, string)` served through the fast path consists of that
+    handler's own two values — whatever other requests (e.g. one nested inside a `Before` hook
+    while this result is being rendered) are served meanwhile: the model's requests share nothing -/
+theorem fast_path_own_values (head : Bool) (ph s : Bytes) (c : Int) (hc : validCode c = true) :
+    (respond head ph (viaTeapot c s)).resp = ⟨c.toNat, bodyFor head s, false⟩ :=
+  int_string_row head ph s c hc
+
 /-- "a return handler registered in the injector replaces the table": if the lookup finds
     another handler `h` (request scope first, else app scope), the acts are `h`'s, whatever the
     table would have done; with nothing registered they are the table's -/
